@@ -510,9 +510,16 @@ func checkEnforceFlag(c *Ctx, r *Report) {
 		}
 		if e, arg := lenEmptiness(cnd, pol); e == 1 {
 			sa := sliceOf(arg)
-			if sa.Calls["core/metadata.GetRouteSecurityWithInheritance"] {
+			// (one list that is the explicit/inherited security or else the configured default
+			// stands for both reasons)
+			inh, def := sa.Calls["core/metadata.GetRouteSecurityWithInheritance"], sa.Calls["core/metadata.GetDefaultSecurity"]
+			switch {
+			case inh && def:
+				reasons["configured default present"]++
 				return "explicit/inherited security present"
-			} else if sa.Calls["core/metadata.GetDefaultSecurity"] {
+			case inh:
+				return "explicit/inherited security present"
+			case def:
 				return "configured default present"
 			}
 		}
